@@ -1,5 +1,6 @@
 // ---- Route S prelude (plain Rust stand-ins; assumptions: "the context values read have these
 // ---- types" and the opaque leaves may return anything) ----
+use std::convert::{TryFrom, TryInto};
 use std::fmt::Display;
 
 pub struct SectionLayoutsOpaque { pub p: u8 }
